@@ -4,7 +4,8 @@ import json
 
 from anchors import INT_ANCHORS, FLOAT_ANCHORS, INT_RANK, FLOAT_RANK
 from runner import Judge
-from stonegen import Generated, render_schema, render_type, concrete_str
+import stonegen
+from stonegen import Generated, render_schema, render_type, has_not_ok_str
 from wire import concrete_bytes, norm_abs, _items
 
 NAIVE = datetime.datetime(2015, 5, 12, 15, 50, 38)
@@ -83,7 +84,7 @@ class RuntimeJudge(Judge):
         if k == 'bigint':
             return 10 ** 400
         if k == 'str':
-            return concrete_str(v)
+            return stonegen.concrete_str(v)
         if k == 'bytes':
             return concrete_bytes(v)
         if k == 'dt':
@@ -117,7 +118,7 @@ class RuntimeJudge(Judge):
         if k == 'bool':
             return got is expected['b']
         if k == 'str':
-            return type(got) is str and got == concrete_str(expected)
+            return type(got) is str and got == stonegen.concrete_str(expected)
         if k == 'bytes':
             return type(got) is bytes and got == concrete_bytes(expected)
         if k == 'dt':
@@ -143,6 +144,16 @@ class RuntimeJudge(Judge):
         if obj['phase'] == 'schema':
             self.setup(obj)
             return
+        self.on_case(obj)
+        if has_not_ok_str(obj['last'].get('arg')):
+            # the same case with the other way of failing a pattern: a full match followed by a line feed
+            stonegen.NOT_OK_TAIL = '\n'
+            try:
+                self.on_case(obj)
+            finally:
+                stonegen.NOT_OK_TAIL = 'Z'
+
+    def on_case(self, obj):
         self.n += 1
         bv = self.bv
         ti = obj['ti']
